@@ -1222,6 +1222,117 @@ func gatedTimeoutThenSendToSameOnce() []int64 {
 	return []int64{0, int64(n2), int64(len(cancelled))}
 }
 
+// scenario 27 (C08, C11): requests are outstanding for clients X and Y (Y's dispatched last); X's session ends.  Y's request
+// must still time out at its own deadline, exactly once -- the end of X's session touches nothing of Y.
+func gatedDisconnectKeepsOtherTimeout() []int64 {
+	installIDGen()
+	fake := fakews.NewServer()
+	disp := ocppj.NewDefaultServerDispatcher(ocppj.NewFIFOQueueMap(0))
+	disp.SetTimeout(200 * time.Millisecond)
+	srv := ocppj.NewServer(fake, disp, nil, core16.Profile)
+	srv.SetResponseHandler(func(c ws_Channel, r ocpp.Response, id string) {})
+	srv.SetErrorHandler(func(c ws_Channel, e *ocpp.Error, d interface{}) {})
+	srv.SetRequestHandler(func(c ws_Channel, r ocpp.Request, id, action string) {})
+	var mu sync.Mutex
+	cancelled := map[string]int{}
+	srv.SetCanceledRequestHandler(func(clientID string, requestID string, r ocpp.Request, e *ocpp.Error) {
+		mu.Lock()
+		cancelled[requestID]++
+		mu.Unlock()
+	})
+	go srv.Start(0, "/{ws}")
+	if !waitFor(2*time.Second, disp.IsRunning) {
+		return []int64{-2}
+	}
+	fake.Connect("X")
+	fake.Connect("Y")
+	wrote := func(to string, id int64) func() bool {
+		return func() bool {
+			return fake.CountWritten(func(t string, d []byte) bool { return t == to && callID(d) == id }) > 0
+		}
+	}
+	setNextID("401")
+	_ = srv.SendRequest("X", core16.NewDataTransferRequest("x1"))
+	if !waitFor(2*time.Second, wrote("X", 401)) {
+		return []int64{-8}
+	}
+	setNextID("402")
+	_ = srv.SendRequest("Y", core16.NewDataTransferRequest("y1"))
+	if !waitFor(2*time.Second, wrote("Y", 402)) {
+		return []int64{-8}
+	}
+	t0 := time.Now()
+	time.Sleep(20 * time.Millisecond)
+	fake.Disconnect("X")
+	ok := waitFor(1200*time.Millisecond, func() bool { mu.Lock(); defer mu.Unlock(); return cancelled["402"] >= 1 })
+	el := time.Since(t0)
+	time.Sleep(50 * time.Millisecond)
+	within(2*time.Second, srv.Stop)
+	mu.Lock()
+	defer mu.Unlock()
+	if ok && cancelled["402"] == 1 && el >= 150*time.Millisecond {
+		return []int64{1, 0}
+	}
+	return []int64{0, int64(cancelled["402"]), int64(el / time.Millisecond)}
+}
+
+// scenario 28 (C11, C07): while the pump is busy writing to client C, the replies of clients A and B arrive, each of
+// which has a further request queued.  Both follow-up requests must be written: activity on one connection never
+// swallows the wake-up of another.
+func gatedTwoCompletionsWhilePumpBusy() []int64 {
+	installIDGen()
+	fake := fakews.NewServer()
+	disp := ocppj.NewDefaultServerDispatcher(ocppj.NewFIFOQueueMap(0))
+	disp.SetTimeout(time.Hour)
+	srv := ocppj.NewServer(fake, disp, nil, core16.Profile)
+	srv.SetResponseHandler(func(c ws_Channel, r ocpp.Response, id string) {})
+	srv.SetErrorHandler(func(c ws_Channel, e *ocpp.Error, d interface{}) {})
+	srv.SetRequestHandler(func(c ws_Channel, r ocpp.Request, id, action string) {})
+	gate := make(chan struct{})
+	fake.OnWrite = func(to string, data []byte) {
+		if to == "C" {
+			<-gate
+		}
+	}
+	go srv.Start(0, "/{ws}")
+	if !waitFor(2*time.Second, disp.IsRunning) {
+		return []int64{-2}
+	}
+	for _, c := range []string{"A", "B", "C"} {
+		fake.Connect(c)
+	}
+	wrote := func(to string, id int64) func() bool {
+		return func() bool {
+			return fake.CountWritten(func(t string, d []byte) bool { return t == to && callID(d) == id }) > 0
+		}
+	}
+	send := func(to string, id int64) {
+		setNextID(fmt.Sprint(id))
+		_ = srv.SendRequest(to, core16.NewDataTransferRequest("v"))
+	}
+	send("A", 501)
+	send("A", 502)
+	send("B", 511)
+	send("B", 512)
+	if !waitFor(2*time.Second, func() bool { return wrote("A", 501)() && wrote("B", 511)() }) {
+		close(gate)
+		return []int64{-8}
+	}
+	send("C", 521) // the pump is now held inside the write to C
+	time.Sleep(20 * time.Millisecond)
+	_ = fake.Inject("A", []byte(`[3,"501",{"status":"Accepted"}]`))
+	_ = fake.Inject("B", []byte(`[3,"511",{"status":"Accepted"}]`))
+	time.Sleep(10 * time.Millisecond)
+	close(gate)
+	okA := waitFor(2*time.Second, wrote("A", 502))
+	okB := waitFor(2*time.Second, wrote("B", 512))
+	within(3*time.Second, srv.Stop)
+	if okA && okB {
+		return []int64{1, 0}
+	}
+	return []int64{0, b2i(okA), b2i(okB)}
+}
+
 func gatedEval(in []int64) []int64 {
 	switch in[0] {
 	case 7:
@@ -1258,6 +1369,10 @@ func gatedEval(in []int64) []int64 {
 		return gatedInvalidMessageHook()
 	case 26:
 		return gatedTimeoutThenSendToSame()
+	case 27:
+		return gatedDisconnectKeepsOtherTimeout()
+	case 28:
+		return gatedTwoCompletionsWhilePumpBusy()
 	}
 	return []int64{-1}
 }
